@@ -10,6 +10,7 @@ import inspect
 import random
 import re
 import struct
+import sys
 
 from .. import canon, refcodec, refspec
 from ..gen import frames as gf
@@ -143,6 +144,47 @@ def _use_everything(rec, commands):
                 common.lib_unmarshal(struct.pack('>BHI', 1, 2, len(p)) + p +
                                      b'\xce')
                 n += 1
+    # what peers of other protocol revisions send: methods of AMQP 0-8 / 0-9
+    # that 0-9-1 dropped (access.request, basic.recover-async siblings, the
+    # file / stream / tunnel / dtx / test classes), every other combination
+    # of a known class id with an unknown method id, and real Close / Return
+    # frames whose reply text names an error - decoded (most are refused);
+    # the catalogue is what it was
+    legacy = [(30, 10, b'\x05/data\x1f'), (30, 11, b'\x00\x01'),
+              (30, 10, b'\x00\x00'), (30, 11, b'\x00\x00'),
+              (10, 50, b'\x01/\x00\x00'), (10, 60, b'\x00'),
+              (20, 30, b''), (60, 12, b''), (60, 130, b'\x00'),
+              (70, 10, b'\x00\x00\x00\x00'), (80, 10, b'\x00' * 7),
+              (100, 10, b''), (100, 20, b'\x00\x00\x03abc'),
+              (110, 10, b'\x00\x00\x00\x00'), (120, 10, b'\x00'),
+              (120, 20, b'\x00\x00\x00\x00'), (90, 10, b''), (85, 10, b'')]
+    for cid in (10, 20, 30, 40, 50, 60, 70, 80, 85, 90, 100, 110, 120):
+        for mid in (1, 10, 11, 12, 20, 21, 30, 31, 40, 41, 50, 51, 60, 61,
+                    70, 71, 72, 80, 90, 100, 101, 110, 111, 120):
+            if (cid << 16 | mid) not in refspec.METHODS:
+                legacy.append((cid, mid, b'\x00\x00'))
+                legacy.append((cid, mid, b'\x04test\x00'))
+    for cid, mid, payload in legacy:
+        p_ = struct.pack('>HH', cid, mid) + payload
+        common.lib_unmarshal(struct.pack('>BHI', 1, 1, len(p_)) + p_ +
+                             b'\xce')
+        n += 1
+    for code, (label, _hard) in sorted(refspec.REPLY_CODES.items()):
+        for code2, (label2, _h2) in sorted(refspec.REPLY_CODES.items()):
+            for text in (label2 + ' - no queue', label2.replace('-', '_') +
+                         ' - x', label2.lower()):
+                for name_ in ('Connection.Close', 'Channel.Close',
+                              'Basic.Return'):
+                    sp_ = refspec.BY_NAME[name_]
+                    vals = gf.assignment(random.Random(code * code2), sp_)
+                    vals['reply_code'] = code
+                    vals['reply_text'] = text
+                    try:
+                        common.lib_unmarshal(refcodec.enc_method(
+                            sp_.index, vals, 1))
+                        n += 1
+                    except refcodec.RefError:
+                        pass
     # client code that subclasses the generated classes
     made = []
     for idx, cls in sorted(commands.INDEX_MAPPING.items()):
@@ -285,6 +327,34 @@ def _walk(rec, commands):
                           % (q, n, n2),
                           getattr(c3.value, n2, boundary.Missing),
                           sp.python_default(n2), 'constructor-default')
+        # ... and whatever SUBSET of the arguments is supplied, with values
+        # as they occur in real traffic (reply codes, class / method ids of
+        # the catalogue, names and numbers the tree itself mentions)
+        if len(sp.args) >= 2:
+            srnd = random.Random('C14-subsets:%d' % idx)
+            for k in range(240):
+                full = gf.assignment(srnd, sp, magic=0.5 if k % 2 else 0.0)
+                names_ = [n for n, _t, _d in sp.args]
+                if k % 3 == 0:
+                    pair = srnd.choice(sorted(refspec.METHODS))
+                    for a_, v_ in (('reply_code', srnd.choice(sorted(
+                            refspec.REPLY_CODES))), ('class_id', pair >> 16),
+                            ('method_id', pair & 0xFFFF)):
+                        if a_ in full:
+                            full[a_] = v_
+                sub = [n for n in names_ if srnd.random() < 0.6]
+                if len(sub) == len(names_):
+                    sub.pop(srnd.randrange(len(sub)))
+                c4 = call(cls, **{n: full[n] for n in sub})
+                if not c4.ok:
+                    continue
+                for n2 in names_:
+                    if n2 not in sub:
+                        _fact(rec, '%s(%s) default of omitted %s'
+                              % (q, ', '.join('%s=%r' % (a, full[a])
+                                              for a in sub)[:160], n2),
+                              getattr(c4.value, n2, boundary.Missing),
+                              sp.python_default(n2), 'constructor-default')
         docd = _doc_defaults(cls)
         for n, t, d in sp.args:
             exp = sp.python_default(n)
@@ -296,7 +366,11 @@ def _walk(rec, commands):
             want_sig = None if (t == 'table' or d is refspec.NODEF) else d
             _fact(rec, '%s signature default of %s' % (q, n), sigd, want_sig,
                   'constructor-default')
-            if d is not refspec.NODEF or t == 'table':
+            if sys.flags.optimize >= 2:
+                # python -OO strips every docstring: there is no class
+                # documentation in this process to compare with
+                rec.count('doc_facts_skipped_under_OO')
+            elif d is not refspec.NODEF or t == 'table':
                 text = docd.get(n)
                 want = "''" if exp == '' else str(exp)
                 _fact(rec, '%s documented default of %s' % (q, n), text,
